@@ -119,7 +119,7 @@ Definition ex_filter : ffilter :=
   | Some f => f
   | None => mkfilter [] [] [] None
   end.
-Definition ex_fs : fsys := [(1, [Dir (STR "src") false [File (STR "a.c"); File (STR "a.h"); Dir (STR "sub") false [File (STR "b.c")]]])].
+Definition ex_fs : fsys := [(1, [Dir (STR "src") false [File (STR "a.c") false; File (STR "a.h") false; Dir (STR "sub") false [File (STR "b.c") false]]])].
 Definition ex_starts : list start := [start_of ex_fs (mkpath 1 [STR "src"] true)].
 Definition ex_cached : fstate :=   (* the state find_check_cache leaves behind: cache filled, nothing registered *)
   mkst (st_cache (snd (find_from_filter true ex_filter ex_starts true true (mkst [] [] [])))) [] [].
